@@ -4,6 +4,7 @@ mod cmd_sim;
 mod cmd_set;
 mod cmd_enrich;
 mod cmd_binary;
+mod cmd_jax;
 mod enc;
 mod paths;
 mod project;
@@ -25,6 +26,7 @@ fn main() {
         "replay-set" => cmd_set::run(&args),
         "replay-enrich" => cmd_enrich::run(&args),
         "replay-binary" => cmd_binary::run(&args),
+        "replay-jax" => cmd_jax::run(&args),
         "debug-mismatch" => cmd_binary::debug_mismatch(&args),
         "replay-one" => {
             let text = std::fs::read_to_string(args.req("file")).unwrap_or_else(|e| {
@@ -41,6 +43,7 @@ fn main() {
                 "replay-set" => cmd_set::replay_one(&v),
                 "replay-enrich" => cmd_enrich::replay_one(&v),
                 "replay-binary" => cmd_binary::replay_one(&v),
+                "replay-jax" => cmd_jax::replay_one(&v),
                 other => {
                     eprintln!("unknown replay cmd {other}");
                     std::process::exit(2)
